@@ -14,6 +14,7 @@ structure DState where
   proto : Proto.PState := {}
   block : Block.BState := []
   feeds : List (String × List FeedOp) := []      -- per watched instance: records not yet drained (oldest first)
+  patterns : List Bytes := []                    -- patterns of the second (filtered) watcher
 
 def DState.sv (d : DState) : Server := ((d.inst.find? (·.1 == d.cur)).map (·.2)).getD {}
 def DState.putSv (d : DState) (sv : Server) : DState :=
@@ -55,6 +56,11 @@ def step (d : DState) (line : String) : DState × String :=
     | ["sleep", _] => (d, "ok")
     | ["failset", k] => (d.put { s with failSet := k.toNat?.getD 0 }, "ok")
     | "watch" :: _ => (d.put { s with listeners := true }, "ok")
+    | "watchp" :: pats => ({ d with patterns := pats.filterMap Wire.parseArg }, "ok")
+    | ["feedp"] =>
+      let recs := ((d.feeds.find? (·.1 == d.cur)).map (·.2)).getD []
+      let m := (recs.filter fun r => d.patterns.any fun p => Glob.matched p r.key).length
+      ({ d with feeds := d.feeds.filter (·.1 != d.cur) }, s!"feedp all={recs.length} matched={m} ok")
     | ["feed"] =>
       let recs := ((d.feeds.find? (·.1 == d.cur)).map (·.2)).getD []
       let parts := recs.map Feed.render
